@@ -146,6 +146,11 @@ class SeqRef:
                 self.vars[s[1]] = self.ev(s[2], T)
             elif k == "push":
                 push[0] = self.ev(s[1], T)
+            elif k == "rdptr":
+                val = self.mem[self.vars.get("vi", 0) & 3]
+                self.vars["vi"] = (self.vars.get("vi", 0) + s[3]) & 3
+                T[s[1]] = val
+                self.assign(["sig", s[2]], val, pend, mpend, T)
             elif k == "let":
                 T[s[1]] = ("alias", s[2]) if s[2][0] in ("var", "sig", "in", "t") else self.ev(s[2], T)
             elif k == "snap":
